@@ -147,6 +147,25 @@ def sink_bytes(ev, name):
     return unhx(s)
 
 
+def kill_stragglers(work):
+    """SIGKILL every process whose command line mentions this run's private work directory (drivers are started with
+    --work <dir>; forked cases keep that command line)."""
+    me = os.getpid()
+    for d in os.listdir("/proc"):
+        if not d.isdigit() or int(d) == me:
+            continue
+        try:
+            with open("/proc/%s/cmdline" % d, "rb") as f:
+                cl = f.read()
+        except OSError:
+            continue
+        if work.encode() in cl and b"vdrive" in cl:
+            try:
+                os.kill(int(d), signal.SIGKILL)
+            except OSError:
+                pass
+
+
 def run_vdrive(build, script_text, work, *, asan=False, mtx=True, heap=False, timeout=120, env_extra=None,
                repo_count=True, strace=None, keep=False, exe=None, preload=None):
     """Runs one script in one vdrive process. `work` is a private directory (created if needed)."""
@@ -209,7 +228,19 @@ def run_vdrive(build, script_text, work, *, asan=False, mtx=True, heap=False, ti
         os.killpg(p.pid, signal.SIGKILL)        # the driver if it hangs, and stragglers of its session in any case
     except OSError:
         pass
-    _, err = p.communicate()
+    # a case that made itself a session leader (setsid / ctty) escapes the group kill and may still hold the stderr pipe
+    err = b""
+    for attempt in range(3):
+        try:
+            _, err = p.communicate(timeout=3)
+            break
+        except subprocess.TimeoutExpired:
+            kill_stragglers(work)
+    else:
+        try:
+            p.stderr.close()
+        except Exception:
+            pass
     res.stderr = err or b""
     res.rc = p.returncode
     if p.returncode is not None and p.returncode < 0:
